@@ -78,8 +78,12 @@ C14_Accept(c, trk, call, o) ==
 
 \* ---- C02 ---------------------------------------------------------------------------
 IsNull(call) == Has(call, "null") /\ call.null
+AcceptLoadX(mx, o) ==
+  LET s == LoadSpecX(mx) IN
+  IF s.k = "err" THEN o.k = "err" /\ o.e = s.e
+  ELSE o.k = "ok" /\ o.v.start = 0 /\ o.v.end = s.v.end /\ o.v.ptr = 0 /\ o.v.total = s.v.total
 C02_Accept(c, trk, call, o) ==
-  CASE call.op = "load" -> AcceptLoad(IsNull(call), c.mem, o)
+  CASE call.op = "load" -> IF Has(c, "memx") THEN AcceptLoadX(c.memx, o) ELSE AcceptLoad(IsNull(call), c.mem, o)
     [] OTHER -> TRUE
 
 \* ---- C03 ---------------------------------------------------------------------------
@@ -361,7 +365,9 @@ BasicSpec(mem, f) ==
     [] f = "verify_checksum" -> BoolVal(ChecksumOk(Bytes(mem, 0, 4), Bytes(mem, 4, 4), Bytes(mem, 8, 4), Bytes(mem, 12, 4)))
     [] OTHER -> Unit
 C10_Accept(c, trk, call, o) ==
-  CASE call.op = "hload" -> AcceptHLoad(IsNull(call), c.mem, o)
+  CASE call.op = "hload" ->
+         IF Has(c, "memx") THEN (LET s == HLoadSpecX(c.memx) IN IF s.k = "err" THEN o.k = "err" /\ o.e = s.e ELSE o.k = "ok")
+         ELSE AcceptHLoad(IsNull(call), c.mem, o)
     [] call.op = "basic" -> o = BasicSpec(c.mem, call.f)
     [] call.op = "calc_checksum" ->
          /\ o.k = "val" /\ ChecksumOk(call.magic, U32Bytes(call.arch), call.length, o.v)
@@ -582,6 +588,8 @@ DesignStep(c, ds, call) ==
          [o |-> BytesRefSpec(HeaderByName(call.h), Len(c.mem), Al(c)), ds |-> ds]
     [] call.op = "round8" ->       \* increase_to_alignment: (n + 7) with the low three bits cleared
          LET n == LE4(call.n) IN [o |-> Val(U32Bytes((n + 7) - ((n + 7) % 8)) \o <<0, 0, 0, 0>>), ds |-> ds]
+    [] call.op = "load" /\ Has(c, "memx") -> [o |-> LoadSpecX(c.memx), ds |-> ds]
+    [] call.op = "hload" /\ Has(c, "memx") -> [o |-> HLoadSpecX(c.memx), ds |-> ds]
     [] call.op = "load" ->
          LET r == DesignLoad(IsNull(call), c.mem) IN
          [o |-> r, ds |-> [ds EXCEPT !.loaded = IF r.k = "ok" THEN "bi" ELSE "none"]]
